@@ -551,7 +551,13 @@ class World2:
             ch = (top + 1, top + 4465, 70000 + op["oor"], -1 if a.cls == "fpdata" else -32769, -40000)[op["oor"] % 5]
             oor = True
             self.stats["fault_channel_out_of_range"] += 1
+        if isinstance(ch, int) and not oor and op.get("id", 0) % 4 == 0:
+            # the channel as a numpy integer (what iterating a decoded block's channels yields)
+            ch = (np.int16 if -32768 <= ch <= 32767 else np.int64)(ch)
+            self.stats["explicit_channel_as_numpy_int"] += 1
         kind, val = self.call(self.adder(a), it, ch)
+        if isinstance(ch, np.integer):
+            ch = int(ch)
         self.note("add", kind, ch)
         self.transitions.add((a.cls, len(a.model), "add", kind))
         if kind == "exc" and oor:
